@@ -5,6 +5,18 @@
 package bulking
 
 //@ ghost nRun int
+//@ ghost resultsSent int
+//@ ghost loadCalls int
+//@ ghost lastLoad bool
+//@ ghost storeTrueCalls int
+
+//@ assumed func (x *atomic.Bool) Load() (r bool)
+//@   modifies loadCalls, lastLoad
+//@   ensures loadCalls == old(loadCalls) + 1 && lastLoad == r
+
+//@ assumed func (x *atomic.Bool) Store(val bool)
+//@   modifies storeTrueCalls
+//@   ensures storeTrueCalls == old(storeTrueCalls) + (val ? 1 : 0)
 //@ ghost lastRunCtrl ledgercontroller.Controller
 //@ ghost lastRunHasError bool
 
@@ -18,6 +30,23 @@ package bulking
 //@ assumed func (b *Bulker) run(ctx context.Context, ctrl ledgercontroller.Controller, schemaVersion string, bulk Bulk, result chan BulkElementResult, continueOnFailure bool, parallel bool) (hasError bool)
 //@   modifies nRun, lastRunCtrl, lastRunHasError, ctrlWrites, lastWriteCtrl, lastIK, lastSchemaVersion, lastDryRun
 //@   ensures nRun == old(nRun) + 1 && lastRunCtrl == ctrl && lastRunHasError == hasError
+//@   lit 1:
+//@     property C32
+//@     modifies resultsSent, loadCalls, lastLoad, storeTrueCalls, ctrlWrites, lastWriteCtrl, lastIK, lastSchemaVersion, lastDryRun
+//@     requires is(element.Data, TransactionRequest) || is(element.Data, AddMetadataRequest) || is(element.Data, RevertTransactionRequest) || is(element.Data, DeleteMetadataRequest)
+//@     requires element.Action == "CREATE_TRANSACTION" ==> is(element.Data, TransactionRequest)
+//@     requires element.Action == "ADD_METADATA" ==> is(element.Data, AddMetadataRequest)
+//@     requires element.Action == "REVERT_TRANSACTION" ==> is(element.Data, RevertTransactionRequest)
+//@     requires element.Action == "DELETE_METADATA" ==> is(element.Data, DeleteMetadataRequest)
+//@     requires element.Action == "CREATE_TRANSACTION" || element.Action == "ADD_METADATA" || element.Action == "REVERT_TRANSACTION" || element.Action == "DELETE_METADATA"
+//@     ensures resultsSent == old(resultsSent) + 1
+//@     ensures ctrlWrites <= old(ctrlWrites) + 1
+//@     ensures ctrlWrites == old(ctrlWrites) + 1 ==> lastWriteCtrl == ctrl && lastSchemaVersion == schemaVersion && lastIK == element.IdempotencyKey && !lastDryRun
+//@     ensures ctrlWrites == old(ctrlWrites) + 1 ==> loadCalls == old(loadCalls) + 1 && (!lastLoad || continueOnFailure)
+//@     fnparam send_result(v) ():
+//@       modifies resultsSent
+//@       ensures resultsSent == old(resultsSent) + 1
+//@   end
 
 //@ func (b *Bulker) Run(ctx context.Context, bulk Bulk, result chan BulkElementResult, bulkOptions BulkingOptions) (err error)
 //@   property C32
